@@ -60,7 +60,7 @@ def diff_owner(op, impl, model):
         return ["C01", "C02"]
     if k in ("rdy", "cls"):
         return ["C03"]
-    if k in ("pausec", "unpausec", "pauset", "unpauset"):
+    if k in ("pausec", "unpausec", "pauset", "unpauset", "tpause"):   # tpause: leg busypause as a schedule of Nsq.Model.TopicPause (audit A10)
         return ["C03"]
     if k in ("stats", "tdump"):
         return ["C13"] + (["C01"] if k == "tdump" else [])
